@@ -174,28 +174,41 @@ def judge(ctx, binary, cases, events, tag, seen):
     for i in sorted(rej):
         w = witness_of(events[i], rej[i])
         h = cases[i].get("h", 0)
-        if reported.get(w["class"], 0) >= 6 or (h and h in done_h):     # a few replayable witnesses per failing class are enough
+        if reported.get(w["class"], 0) >= 6 or (h and h in done_h) or len(ctx.violations) >= 12:     # a few replayable witnesses per failing class are enough
             continue
         reported[w["class"]] = reported.get(w["class"], 0) + 1
-        if h:       # re-execute with the bodies that went through the same object before it
-            done_h.add(h)
-            j = i
-            while j > 0 and cases[j - 1].get("h", 0) == h:
-                j -= 1
-            k = i + 1 if cases[i].get("pair") == "req" else i
-            hist = [dict({x: v for x, v in c.items() if not x.startswith("_")}, id=n, h=1) for n, c in enumerate(cases[j:k + 1])]
-        else:
-            hist = [dict({x: v for x, v in cases[i].items() if not x.startswith("_")}, id=0)]
-        ev2 = execute(ctx, binary, hist, tag + "-repro")
-        d2 = judge_cases_detail(ctx, SPEC, "ObfTrace", ev2, tag + "-repro")
+        strip = lambda c: {x: v for x, v in c.items() if not x.startswith("_")}
+        j = i
+        while h and j > 0 and cases[j - 1].get("h", 0) == h:
+            j -= 1
+        k = i + 1 if cases[i].get("pair") == "req" else i
+        # re-execute the case (with the bodies that went through the same object before it); when that does not show the
+        # rejection again it may depend on what EARLIER calls of the batch left behind (pools, caches): re-execute it after
+        # more and more of its predecessors, in order, in one process, up to the whole prefix of the batch
+        d2, before = None, 0
+        for before in [0, 1, 2, 4, 8, 32, 128, 512, j]:
+            lo = max(0, j - before)
+            hids = {}
+            hist = [dict(strip(c), id=n, h=hids.setdefault(c.get("h", 0), len(hids) + 1) if c.get("h", 0) else 0)
+                    for n, c in enumerate(cases[lo:k + 1])]
+            ev2 = execute(ctx, binary, hist, tag + "-repro")
+            d2 = {n: v for n, v in judge_cases_detail(ctx, SPEC, "ObfTrace", ev2, tag + "-repro").items() if n >= j - lo}
+            if d2 or lo == 0:
+                break
         if not d2:
             raise Broken("rejection not reproduced (%s): %s" % (tag, json.dumps(events[i])[:800]))
+        earlier = j - lo
         n = min(d2)
         w2 = witness_of(ev2[n], d2[n])
-        if h:
+        if earlier:
+            w2["class"] += "-after-earlier-calls"
+            w2["earlier_calls_needed"] = earlier
+            w2["calls_before"] = [[c["entry"], c.get("garbage", ""), ev2[m]["excl_strings"], ev2[m]["in"][:60]] for m, c in enumerate(hist[:n])][-4:]
+        elif h:
             w2["class"] += "-in-a-history-on-one-obfuscator-object"
             w2["bodies_before"] = [[c["entry"], ev2[m]["in"][:80]] for m, c in enumerate(hist[:n])]
-        ctx.violation(w2, {"history": hist, "events": ev2, "rejected": sorted(d2)})
+        ctx.violation(w2, {"history": hist, "events": [{x: v for x, v in e.items() if x not in ("doc", "otree")} for e in ev2],
+                           "rejected": sorted(d2)})
     return rej
 
 
@@ -226,6 +239,61 @@ def rand_history(rng, depth):
     for d in docs:
         out.append(dict(entry=e, excl=excl, doc=d))
         e = "har_response" if e == "har_request" or rng.random() < 0.3 else "har_request"
+    return out
+
+
+def rand_fail_history(rng, depth):
+    """calls whose body fails to parse (every way a body can fail, with a non-empty exclusion list) interleaved with valid documents
+    that have fields on the paths excluded in the failed call - under another (often empty) exclusion list.  Sequential calls of one
+    process: what a failed call leaves behind must not reach a later call."""
+    out = []
+    entry = rng.choice(["json", "json", "har_request", "har_response", "legacy_request", "legacy_response"])
+    for _ in range(rng.randint(1, 3)):
+        doc = rand_doc(rng, rng.randint(1, depth))
+        while doc["k"] == "leaf" or not doc["f"]:
+            doc = rand_doc(rng, rng.randint(1, depth))
+        paths = [p for p in node_paths(doc) if p]
+        n = {"json": rng.choice(["plain", "request"]), "har_request": "request", "har_response": "response",
+             "legacy_request": "plain", "legacy_response": "plain"}[entry]
+        excl = [{"n": n, "segs": list(p)} for p in rng.sample(paths, min(len(paths), rng.randint(1, 3)))]
+        bad = {"entry": entry, "excl": excl, "doc": doc, "garbage": rng.choice(["form", "truncated", "trailing", "binary"])}
+        if entry.startswith("legacy") and rng.random() < 0.4:          # an undecodable body of the exporter instead
+            bad = dict({"entry": entry, "excl": excl, "doc": doc}, enc=rng.choice(["br", ""]), wire="gzip")
+        out.append(bad)
+        for _ in range(rng.randint(1, 2)):      # the same API's next valid bodies: same fields, other exclusions
+            e2 = rng.choice([entry, entry, "json"])
+            n2 = {"json": "plain", "har_request": "request", "har_response": "response", "legacy_request": "plain", "legacy_response": "plain"}[e2]
+            other = [] if rng.random() < 0.6 else [{"n": n2, "segs": list(rng.choice(paths))}]
+            out.append({"entry": e2, "excl": other, "doc": relabel(doc, rng) if rng.random() < 0.5 else doc})
+    return out
+
+
+def chain(rng, depth, mode):
+    """a document nested `depth` containers deep (objects, arrays or both), a leaf at the bottom, side leaves on some levels"""
+    d = {"k": "obj", "t": "", "f": [["a", leaf(rng)], ["b", leaf(rng)]]}
+    path = []
+    for lvl in range(depth - 1):
+        kind = mode if mode != "mixed" else rng.choice(["obj", "arr"])
+        if kind == "arr":
+            d = {"k": "arr", "t": "", "f": [d] + ([leaf(rng)] if rng.random() < 0.2 else [])}
+            path.insert(0, "[]")
+        else:
+            d = {"k": "obj", "t": "", "f": [["a", d]] + ([["b", leaf(rng)]] if rng.random() < 0.2 else [])}
+            path.insert(0, "a")
+    return d, path
+
+
+def deep_cases(rng):
+    """document depth: chains of 33, 64 and 200 levels, without exclusions and with an exclusion reaching far below the top"""
+    out = []
+    for depth in (31, 32, 33, 34, 40, 64, 200):
+        for mode in ("obj", "arr", "mixed"):
+            doc, path = chain(rng, depth, mode)
+            for entry, n in (("json", "plain"), ("har_response", "response"), ("legacy_request", "plain")):
+                for excl in ([], [path + ["a"]], [path[:depth - 3]], [path[:min(36, len(path))] + ["zz"]]):
+                    if entry != "json" and depth == 200 and excl:
+                        continue
+                    out.append({"entry": entry, "excl": [{"n": n, "segs": x} for x in excl], "doc": doc})
     return out
 
 
@@ -388,6 +456,26 @@ def run(ctx):
     ctx.log("histories on one obfuscator object: %d bodies in %d histories (%d generateHAR pairs), %d rejected" % (
         len(hc), hc[-1]["h"], sum(1 for c in hc if c.get("pair") == "req"), len(rej)))
     ctx.notes.append("bodies obfuscated in histories on one obfuscator object / by one generateHAR call: %d random + the generated HAR cases" % len(hc))
+
+    hist_events = events
+    # (3b') calls that fail to parse interleaved with valid documents on the same paths; deeply nested documents
+    fc = []
+    for k in range(400 if not T else 4000):
+        fc += rand_fail_history(ctx.rng, depth)
+    dc = deep_cases(ctx.rng)
+    for i, c in enumerate(fc + dc):
+        c["id"] = i
+    events = execute(ctx, binary, fc + dc, "fail")
+    rej = judge(ctx, binary, fc + dc, events, "fail", seen)
+    failed = sum(1 for e in events if e["shape"] == "opaque")
+    deepest = max(max((len(l["p"]) for l in e["leaves"]), default=0) for e in events)
+    if not ctx.violations and (failed < len(fc) // 8 or deepest < 190):
+        raise Broken("failing calls / deep documents not exercised (vacuous): %d opaque of %d, deepest leaf %d" % (failed, len(fc), deepest))
+    ctx.log("failing calls interleaved with valid documents: %d calls (%d exported nothing); deep documents: %d (deepest leaf at %d), %d rejected" % (
+        len(fc), failed, len(dc), deepest, len(rej)))
+    ctx.notes.append("sequential histories with unparsable bodies (form-encoded, truncated, trailing data, binary, undecodable gzip) under non-empty "
+                     "exclusion lists followed by valid documents on the same paths: %d calls; documents nested 31..200 levels: %d" % (len(fc), len(dc)))
+    events = hist_events + events
 
     tr = {}
     for e in gen_events + rand_events + events:
